@@ -83,7 +83,15 @@ SETOP_TAIL = ["SELECT id FROM t1 %s SELECT id FROM t2 %s" % (op, tail)
               for tail in ('ORDER BY id', 'ORDER BY id DESC LIMIT 1', 'ORDER BY 1 LIMIT 1 OFFSET 1', 'LIMIT 1', 'ORDER BY id DESC NULLS LAST')]
 SETOP_TAIL += ["SELECT id FROM t1 UNION ALL SELECT id FROM t2 UNION ALL SELECT id FROM t3 ORDER BY id LIMIT 2",
                "SELECT s.id FROM (SELECT id FROM t1 UNION ALL SELECT id FROM t2 ORDER BY id DESC LIMIT 1) AS s"]
-SELECTS = SELECTS + ORDER_GEN + SETOP_TAIL
+# DISTINCT / GROUP BY combinations: targets are any subset of the grouping key (plus aggregates), with and without DISTINCT
+GROUP_GEN = ["SELECT %s%s FROM t1 GROUP BY %s%s" % (dq, tg, gb, hv)
+             for dq in ('', 'DISTINCT ')
+             for tg, gb in (('a', 'a'), ('a', 'a, b'), ('b', 'a, b'), ('a, b', 'a, b'), ('b, a', 'a, b'), ('a, count(*) AS n', 'a'), ('a, count(*) AS n', 'a, b'),
+                            ('count(*) AS n', 'a'), ('a AS k', 'a, b'), ('t1.a', 't1.a, t1.b'), ('a + 1 AS k', 'a, b'), ('a, max(b) AS m', 'a, id'))
+             for hv in ('', ' HAVING count(*) > 1')]
+GROUP_GEN += ["SELECT DISTINCT a FROM t1 WHERE b IS NOT NULL", "SELECT DISTINCT a, b FROM t1 ORDER BY a, b LIMIT 2", "SELECT count(DISTINCT a) AS n, count(a) AS m FROM t1 GROUP BY b",
+              "SELECT DISTINCT t1.a FROM t1 JOIN t2 ON t1.id = t2.id", "SELECT DISTINCT s.a FROM (SELECT a, b FROM t1 GROUP BY a, b) AS s"]
+SELECTS = SELECTS + ORDER_GEN + SETOP_TAIL + GROUP_GEN
 
 DML = [
     "DELETE FROM t1 WHERE a > 1",
